@@ -317,41 +317,11 @@ func boxedType(v ssa.Value) types.Type {
 
 // reachesParam reports whether the backward data dependencies of v (crossing closures through captured variables) reach parameter idx of fn.
 func reachesParam(v ssa.Value, fn *ssa.Function, idx int) bool {
-	seen := map[ssa.Value]bool{}
-	var walk func(v ssa.Value, d int) bool
-	walk = func(v ssa.Value, d int) bool {
-		if v == nil || seen[v] || d > 40 {
-			return false
-		}
-		seen[v] = true
-		switch x := v.(type) {
-		case *ssa.Parameter:
-			return x.Parent() == fn && idx < len(fn.Params) && fn.Params[idx] == x
-		case *ssa.FreeVar:
-			if b := core.FreeVarBinding(x); b != nil {
-				return walk(b, d+1)
-			}
-			return false
-		case *ssa.Alloc:
-			if x.Referrers() != nil {
-				for _, r := range *x.Referrers() {
-					if st, ok := r.(*ssa.Store); ok && st.Addr == ssa.Value(x) && walk(st.Val, d+1) {
-						return true
-					}
-				}
-			}
-			return false
-		}
-		if in, ok := v.(ssa.Instruction); ok {
-			for _, op := range in.Operands(nil) {
-				if *op != nil && walk(*op, d+1) {
-					return true
-				}
-			}
-		}
+	if idx < 0 || idx >= len(fn.Params) {
 		return false
 	}
-	return walk(v, 0)
+	target := ssa.Value(fn.Params[idx])
+	return depReaches(v, func(x ssa.Value) bool { return x == target })
 }
 
 type queueAnchors struct {
